@@ -99,4 +99,54 @@ func fold(c *core.Ctx, family string, r *drv.MethodResult) {
 	}
 }
 
-func main() { core.Main("C07", run, nil) }
+// replay re-executes the design (and method) named in a replay file: the family's corpus is
+// built or reused and the driver is run restricted to that design and method.
+func replay(c *core.Ctx, path string) {
+	var cs struct {
+		Corpus, Design, Method, Mode string
+	}
+	if err := core.ReplayCase(path, &cs); err != nil {
+		c.HarnessError("replay: %v", err)
+		return
+	}
+	if cs.Corpus == "oa-routes" {
+		corpus, err := families.BuildRoutes(c)
+		if err != nil {
+			c.HarnessError("oa-routes: %v", err)
+			return
+		}
+		if err := check.RunMode(c, corpus, "C07", "-design", cs.Design, "-method", cs.Method); err != nil {
+			c.HarnessError("oa-routes: %v", err)
+		}
+		return
+	}
+	for _, thorough := range []bool{false, true} {
+		for _, f := range families.All(thorough) {
+			if f.Name != cs.Corpus {
+				continue
+			}
+			corpus, err := check.BuildFamily(c, f)
+			if err != nil {
+				c.HarnessError("%s: %v", f.Name, err)
+				return
+			}
+			if f.CompileOnly {
+				for _, d := range corpus.Designs {
+					if d.Name == cs.Design && d.Gen.OK && d.Spec != nil {
+						for _, r := range drv.C07Static(corpus.Dir, d.Name, d.Spec) {
+							fold(c, corpus.Family, r)
+						}
+					}
+				}
+				return
+			}
+			if err := check.RunMode(c, corpus, "C07", "-design", cs.Design, "-method", cs.Method); err != nil {
+				c.HarnessError("%s: %v", f.Name, err)
+			}
+			return
+		}
+	}
+	c.HarnessError("replay: unknown corpus %q", cs.Corpus)
+}
+
+func main() { core.Main("C07", run, replay) }
